@@ -1,7 +1,6 @@
 (* C11 -- add_measures: tiling, numbering, lengths *)
 From PV Require Import Lib.Base Lib.Round Gen.C11_Tables Model.C11 Model.C11_Spec Proofs.C11_lib.
 From Coq Require Import QArith Qabs Qround Qminmax Sorting.Sorted.
-Require Import SpecA SpecB.
 #[local] Open Scope Z_scope.
 
 Lemma full_end_gt bl last pos : pos < full_end bl last pos.
